@@ -87,7 +87,7 @@ namespace
           A.format(); B.format();
           Assembly::Common::LaplaceOperator lap;
           Assembly::BilinearOperatorAssembler::assemble_matrix1(A, lap, velo, cf);
-          VoxelAssembly::VoxelPoissonAssembler<SpaceType, double, Index> va(velo, coloring, D == 3 ? 8 : 4);
+          VoxelAssembly::VoxelPoissonAssembler<SpaceType, double, Index> va(velo, coloring, -1);
           va.assemble_matrix1(B, velo, cf);
           bool lay = false, bit = false;
           double d = max_rel_diff(A, B, &lay, &bit);
@@ -104,7 +104,7 @@ namespace
         A.format(); B.format();
         Assembly::Common::LaplaceOperator lap;
         Assembly::BilinearOperatorAssembler::assemble_matrix1(A, lap, velo, cf, 0.75);
-        VoxelAssembly::VoxelPoissonAssembler<SpaceType, double, Index> va(velo, coloring, D == 3 ? 8 : 4);
+        VoxelAssembly::VoxelPoissonAssembler<SpaceType, double, Index> va(velo, coloring, -1);
         va.assemble_matrix1(B, velo, cf, 0.75);
         c.count("voxel_matrices");
         bool lay = false, bit = false;
@@ -129,7 +129,7 @@ namespace
         Assembly::BurgersAssembler<double, Index, D> ba;
         ba.deformation = true; ba.nu = 0.625;
         ba.assemble_matrix(A, zero, velo, cf);
-        VoxelAssembly::VoxelDefoAssembler<SpaceType, double, Index> va(velo, coloring, D == 3 ? 8 : 4);
+        VoxelAssembly::VoxelDefoAssembler<SpaceType, double, Index> va(velo, coloring, -1);
         va.nu = 0.625;
         va.assemble_matrix1(B, velo, cf);
         c.count("voxel_matrices");
@@ -157,7 +157,7 @@ namespace
           Assembly::BurgersAssembler<double, Index, D> ba;
           ba.deformation = cg.defo; ba.nu = cg.nu; ba.theta = cg.theta; ba.beta = cg.beta; ba.frechet_beta = cg.fbeta;
           ba.sd_delta = cg.sd; ba.sd_nu = cg.nu; if(cg.sd != 0.0) ba.set_sd_v_norm(vv);
-          VoxelAssembly::VoxelBurgersAssembler<SpaceType, double, Index> va(velo, coloring, D == 3 ? 8 : 4);
+          VoxelAssembly::VoxelBurgersAssembler<SpaceType, double, Index> va(velo, coloring, -1);
           va.deformation = cg.defo; va.nu = cg.nu; va.theta = cg.theta; va.beta = cg.beta; va.frechet_beta = cg.fbeta;
           va.sd_delta = cg.sd; va.sd_nu = cg.nu; if(cg.sd != 0.0) va.set_sd_v_norm(vv);
           if(cg.sd != 0.0)
@@ -214,7 +214,7 @@ namespace
             if(!(dd <= 1e-11 * big) && (cg.fbeta != 0.0 || cg.sd != 0.0))
             {
               // does the vector assembly ignore the Frechet / streamline diffusion terms?
-              VoxelAssembly::VoxelBurgersAssembler<SpaceType, double, Index> v0(velo, coloring, D == 3 ? 8 : 4);
+              VoxelAssembly::VoxelBurgersAssembler<SpaceType, double, Index> v0(velo, coloring, -1);
               v0.deformation = cg.defo; v0.nu = cg.nu; v0.theta = cg.theta; v0.beta = cg.beta;
               BCSR<D, D> B0;
               Assembly::SymbolicAssembler::assemble_matrix_std1(B0, velo);
@@ -246,6 +246,7 @@ namespace
       for(int nt : {1, 4})
       {
         const MeshSpec& ms = fam[im];
+        if(nt > 1 && ms.kind != 2 && ms.refine == 0) continue; // several threads only where there are several cells per colour
         if(!c.want()) continue;
         c.desc([&]{ return sn + " voxel threads=" + std::to_string(nt) + " mesh " + ms.str(); });
         MeshCtx<Shape_> mc = make_mesh<Shape_>(ms);
